@@ -60,7 +60,7 @@ def pay_decode(s):
 def check_run(rec):
     """returns (list of (key, what), number of oracle evaluations)"""
     cfg = rec["cfg"]
-    n, t = cfg["n"], cfg["t"]
+    n, t = cfg["n"], cfg["thr"]
     byz = set(cfg["byz"])
     honest = [p for p in range(n) if p not in byz]
     ctxs = cfg["ctx"]
